@@ -531,6 +531,92 @@ def dora_codec(fn):
     return _codec(ands, ors, steps)
 
 
+def _hir_has_exit(e):
+    return e is not None and any(n[0] in ("break", "ret") for n in hirq.walk(e))
+
+
+def hir_reader_polarity(body, flag):
+    """'stop-when-clear' / 'stop-when-set' / None: which value of the continuation bit ends the read loop"""
+    for n in hirq.walk(body):
+        if n[0] != "if":
+            continue
+        c = hirq.strip(n[1])
+        if not (is_node(c) and c[0] == "bin" and c[1] in ("Eq", "Ne")):
+            continue
+        sides = [hirq.strip(c[2]), hirq.strip(c[3])]
+        test = [x for x in sides if is_node(x) and x[0] == "bin" and x[1] == "BitAnd" and
+                flag in (hirq.lit_int(x[2]), hirq.lit_int(x[3]))]
+        zero = [x for x in sides if hirq.lit_int(x) == 0]
+        if not (test and zero):
+            continue
+        then_exit, else_exit = _hir_has_exit(n[2]), _hir_has_exit(n[3])
+        if then_exit == else_exit:
+            return None
+        clear_branch_exits = then_exit if c[1] == "Eq" else else_exit
+        return "stop-when-clear" if clear_branch_exits else "stop-when-set"
+    return None
+
+
+def hir_writer_polarity(body, flag):
+    """'set-when-more': the flag is OR-ed in under the same condition that keeps the emit loop running"""
+    set_cond = None
+    for n in hirq.walk(body):
+        if n[0] == "if" and n[2] is not None and any(
+                x[0] == "assignop" and x[1] == "BitOrAssign" and hirq.lit_int(x[3]) == flag for x in hirq.walk(n[2])):
+            set_cond = hirq.render(n[1])
+    loop_cond = None
+    for n in hirq.walk(body):
+        if n[0] == "macro" and n[1].startswith("desugar:WhileLoop"):
+            w = hirq.unmacro(n)
+            if is_node(w) and w[0] == "if":
+                c = hirq.unmacro(w[1])
+                if is_node(c) and c[0] == "block" and c[2] is not None:
+                    c = c[2]
+                if _hir_has_exit(w[3]) and not _hir_has_exit(w[2]):
+                    loop_cond = hirq.render(c)
+    if set_cond is not None and loop_cond is not None and set_cond == loop_cond:
+        return "set-when-more"
+    return None
+
+
+def dora_reader_polarity(fn, flag):
+    for n in doraq.walk(fn.node):
+        if n[0] != "IF_EXPR":
+            continue
+        ns = doraq.nodes(n)
+        c = ns[0]
+        while c[0] == "PAREN_EXPR":
+            c = doraq.nodes(c)[0]
+        if c[0] != "BIN_EXPR":
+            continue
+        ops = [k[1] for k in doraq.kids(c) if doraq.is_tok(k)]
+        if not ops or ops[0] not in ("==", "!="):
+            continue
+        sides = []
+        for x in doraq.nodes(c)[:2]:
+            while x[0] == "PAREN_EXPR":
+                x = doraq.nodes(x)[0]
+            sides.append(x)
+        test = False
+        for x in sides:
+            if x[0] == "BIN_EXPR" and [k[1] for k in doraq.kids(x) if doraq.is_tok(k)][:1] == ["&"]:
+                if flag in [doraq.lit_value(y) for y in doraq.nodes(x) if y[0] == "LIT_INT_EXPR"]:
+                    test = True
+        zero = any(x[0] == "LIT_INT_EXPR" and doraq.lit_value(x) == 0 for x in sides)
+        if not (test and zero):
+            continue
+
+        def exits(b):
+            return b is not None and any(y[0] in ("BREAK_EXPR", "RETURN_EXPR") for y in doraq.walk(b))
+        then_exit = exits(ns[1])
+        else_exit = exits(ns[2]) if len(ns) > 2 else False
+        if then_exit == else_exit:
+            return None
+        clear_branch_exits = then_exit if ops[0] == "==" else else_exit
+        return "stop-when-clear" if clear_branch_exits else "stop-when-set"
+    return None
+
+
 def _codec(ands, ors, steps):
     masks = {x for x in ands if isinstance(x, int) and x > 0 and ((x + 1) & x) == 0}
     flags = {x for x in (ands | ors) if _pow2(x)}
@@ -712,6 +798,18 @@ def run_r1(r, F, c, D, tabs):
                 r.violation(key, "the variable-width codec disagrees on its %s: %s — every operand above the first "
                             "payload width decodes to a different number"
                             % (what, ", ".join("%s=%s" % (k, hex(next(iter(v)))) for k, v in vals.items())), wv[0])
+        if all(len(x["flag"]) == 1 for x in (cw, cr, cd)):
+            pol = {"writer": hir_writer_polarity(W["methods"][wv[0]]["body"], next(iter(cw["flag"]))),
+                   "rust": hir_reader_polarity(R["methods"][rv[0]]["body"], next(iter(cr["flag"]))),
+                   "dora": dora_reader_polarity(Dr["fns"][dv[0]], next(iter(cd["flag"])))}
+            r.instance("varint:polarity", nontrivial=all(pol.values()), sample={"codec": "polarity", "values": pol})
+            if pol["writer"] is None or pol["rust"] is None or pol["dora"] is None:
+                r.observe("varint: continuation-bit polarity not recognised on every side: %s" % pol)
+            for side in ("rust", "dora"):
+                if pol["writer"] == "set-when-more" and pol[side] == "stop-when-set":
+                    r.violation("varint:polarity:%s" % side,
+                                "the writer sets the continuation bit when more bytes follow but the %s reader stops "
+                                "when the bit is set: every operand is mis-read" % side, rv[0] if side == "rust" else DORA_READER)
         if all(len(cw[k]) == 1 for k in cw):
             st, mk, fl = (next(iter(cw[k])) for k in ("step", "mask", "flag"))
             r.instance("varint:shape", nontrivial=True)
